@@ -9,6 +9,7 @@ more restricted to `<when>`; a reproduced counterexample there prints KNOWN-FIND
 For engine-P obligations `when` is passed to the harness as params["exclude"] / params["only"].
 """
 import os
+import fnmatch
 import re
 
 ROOT = os.path.dirname(os.path.dirname(os.path.abspath(__file__)))
@@ -35,7 +36,7 @@ def partition(obs, findings):
     extra = []
     for f in findings:
         for o in obs:
-            if o["name"] == f["obligation"] or (f["obligation"].endswith("*") and o["name"].startswith(f["obligation"][:-1])):
+            if o["name"] == f["obligation"] or fnmatch.fnmatchcase(o["name"], f["obligation"]):
                 if o.get("engine", "X") == "X":
                     fo = dict(o, name=o["name"] + "@known", finding=f,
                               extra_pre=list(o.get("extra_pre", [])) + [f["when"]], twin=False)
